@@ -617,6 +617,79 @@ func monC13ops(b []byte, ops string) string {
 
 func checkIf(pos, n int, op rune, check func() string) string { return check() }
 
+// iterAfterReset (C01-C04, C06: their statements name Graphemes as an observation point): a Graphemes value
+// yields the clusters / flags / widths of the StepString chain on a first pass, again after Reset, and after
+// a partial pass followed by Reset. what: "clusters", "word", "sentence", "line", "width".
+func iterAfterReset(b []byte, what string) string {
+	s := string(b)
+	type rec struct {
+		cl string
+		bd int
+	}
+	var want []rec
+	rest, st := s, -1
+	for len(rest) > 0 {
+		var cl string
+		var bd int
+		cl, rest, bd, st = u.StepString(rest, st)
+		if cl == "" {
+			return "StepString returned an empty cluster"
+		}
+		want = append(want, rec{cl, bd})
+	}
+	g := u.NewGraphemes(s)
+	pass := func(name string) string {
+		for i, w := range want {
+			if !g.Next() {
+				return fmt.Sprintf("%s: Graphemes ends before cluster %d", name, i)
+			}
+			switch what {
+			case "clusters":
+				if g.Str() != w.cl {
+					return fmt.Sprintf("%s: cluster %d is %+q, StepString gives %+q", name, i, g.Str(), w.cl)
+				}
+			case "word":
+				if g.Str() != w.cl || g.IsWordBoundary() != (w.bd&u.MaskWord != 0) {
+					return fmt.Sprintf("%s: cluster %d: IsWordBoundary %v, StepString's boundaries %d", name, i, g.IsWordBoundary(), w.bd)
+				}
+			case "sentence":
+				if g.Str() != w.cl || g.IsSentenceBoundary() != (w.bd&u.MaskSentence != 0) {
+					return fmt.Sprintf("%s: cluster %d: IsSentenceBoundary %v, StepString's boundaries %d", name, i, g.IsSentenceBoundary(), w.bd)
+				}
+			case "line":
+				if g.Str() != w.cl || g.LineBreak() != w.bd&u.MaskLine {
+					return fmt.Sprintf("%s: cluster %d: LineBreak %d, StepString's boundaries %d", name, i, g.LineBreak(), w.bd)
+				}
+			case "width":
+				if g.Str() != w.cl || g.Width() != w.bd>>u.ShiftWidth {
+					return fmt.Sprintf("%s: cluster %d: Width %d, StepString's boundaries %d", name, i, g.Width(), w.bd)
+				}
+			}
+		}
+		if g.Next() {
+			return name + ": Graphemes yields more clusters than StepString"
+		}
+		return ""
+	}
+	if m := pass("first pass"); m != "" {
+		return m
+	}
+	g.Reset()
+	if m := pass("pass after Reset"); m != "" {
+		return m
+	}
+	g.Reset()
+	for i := 0; i < len(want)/2; i++ {
+		g.Next()
+	}
+	g.Reset()
+	return pass("pass after a partial pass and Reset")
+}
+
+func monIter(what string) monitor {
+	return func(b []byte) string { return protect(func() string { return iterAfterReset(b, what) }) }
+}
+
 // C01 (oracle-free part): every cluster-producing entry point reports the same clusters
 // (FirstGraphemeCluster, FirstGraphemeClusterInString, Step, StepString, Graphemes, GraphemeClusterCount);
 // that these are the clusters of GB1-GB999 is the SPEC stage's comparison of the first of them
@@ -661,7 +734,7 @@ func monC01(b []byte) string {
 		if c := u.GraphemeClusterCount(s); c != n {
 			return fmt.Sprintf("GraphemeClusterCount = %d, FirstGraphemeClusterInString finds %d clusters", c, n)
 		}
-		return ""
+		return iterAfterReset(b, "clusters")
 	})
 }
 
@@ -716,7 +789,7 @@ func monC06(b []byte) string {
 		if sw := u.StringWidth(s); sw != sum {
 			return fmt.Sprintf("StringWidth = %d, sum of the cluster widths = %d", sw, sum)
 		}
-		return ""
+		return iterAfterReset(b, "width")
 	})
 }
 
